@@ -244,3 +244,299 @@ Proof.
     unfold fr in F. destruct F as (Fa & _ & _ & _ & Fp & Fs & _ & _ & _ & Fh & _). rewrite Fa, Fp, Fh, Fs.
     destruct (ad_pipe (ad x)); cbn; auto.
 Qed.
+
+Lemma stopParsing_InvW c x : InvW x -> InvW (st_of (stopParsing c x)).
+Proof.
+  intros H. unfold stopParsing. destruct (parsing (st x)) eqn:E; cbn [st_of]; try exact H;
+  (unfold must, bind; match goal with |- context[if ?b then Ok x else Throw x] => destruct b end; cbn [st_of]; [|exact H];
+   destruct H as (Hb & Ha & H1 & H2); repeat split; auto; unfold p2; cbn; discriminate).
+Qed.
+Lemma stopParsing_facts c x :
+  let y := st_of (stopParsing c x) in
+  ad y = ad x /\ out y = out x /\ sending (st y) = sending (st x) /\ vs y = vs x /\
+  match stopParsing c x with Ok z => parsing (st z) = PsDone | Throw z => z = x end.
+Proof.
+  cbv zeta. unfold stopParsing. destruct (parsing (st x)) eqn:E; cbn [st_of]; auto;
+  (unfold must, bind; match goal with |- context[if ?b then Ok x else Throw x] => destruct b end; cbn; auto).
+Qed.
+
+(* echoMore appends virgin bytes only, and only to a virgin-clone message *)
+Lemma echoMore_spec : spec InvW echoMore InvW InvW.
+Proof.
+  intros x H. unfold echoMore.
+  unfold must at 1. destruct (is_sending SVirgin x) eqn:Es; [|exact H]. cbn [bind].
+  unfold must at 1. destruct (ad_pipe (ad x)); [|exact H]. cbn [bind].
+  unfold must at 1. destruct (active (s_st (vs x))); [|exact H]. cbn [bind].
+  unfold must at 1. destruct ((vp_consumed (vs x) <=? s_off (vs x)) && (s_off (vs x) <=? vend x)) eqn:Eb; [|exact H]. cbn [bind].
+  assert (Hv : ad_header (ad x) = Some SrcVirgin).
+  { destruct H as (_ & _ & H1 & _). apply H1. unfold is_sending in Es. destruct (sending (st x)); try discriminate; reflexivity. }
+  set (r := if 0 <? vend x - s_off (vs x) then _ else Ok x).
+  assert (Hr : InvW (st_of r)).
+  { subst r. destruct (0 <? vend x - s_off (vs x)); [|exact H].
+    eapply fr_InvW; [apply virginConsume_fr|].
+    destruct H as (Hb & Ha & H1 & H2). unfold body_ok in Hb. rewrite Hv in Hb. destruct Hb as (Hb1 & Hb2 & Hb3).
+    refine (conj _ (conj Ha (conj H1 H2))).
+    unfold body_ok, disableBypass, disableRepeats. cbn. rewrite Hv.
+    repeat split; [|exact Hb2|].
+    - rewrite takeN_add, Hb1. reflexivity.
+    - unfold vend in *. match goal with |- _ + N.min ?a ?b <= _ => assert (a <= lenN (vp_data (vs x)) - s_off (vs x)) by (destruct (ad_size (ad x)); lia) end. lia. }
+  destruct r as [y|y]; cbn [bind st_of] in *; [|exact Hr].
+  destruct (end_reached_s y); [|exact Hr].
+  pose proof (stopSending_InvW true y Hr). destruct (stopSending true y); exact H0.
+Qed.
+
+Lemma startSending_spec : spec InvW startSending InvW InvW.
+Proof.
+  intros x H. unfold startSending. cbv zeta.
+  assert (H' : InvW (disableBypass true (disableRepeats x))) by (eapply fr_InvW; [|exact H]; frsolve).
+  set (x' := disableBypass true (disableRepeats x)) in *.
+  destruct (ad_header (ad x')) as [s|] eqn:Eh; [|exact H'].
+  assert (H'' : InvW (sendAnswer (Fwd s) x')).
+  { unfold sendAnswer. destruct (initiator (job x')); [|exact H'].
+    destruct H' as (Hb & Ha & H1 & H2). repeat split; auto.
+    unfold answer_ok. cbn. intros s0 E. injection E as <-. exact Eh. }
+  destruct (is_sending SVirgin (sendAnswer (Fwd s) x')); [apply echoMore_spec, H''|exact H''].
+Qed.
+
+Lemma makeAdaptedBodyPipe_InvW x : InvW x -> InvW (st_of (makeAdaptedBodyPipe x)).
+Proof.
+  intros H. unfold makeAdaptedBodyPipe, must, bind. match goal with |- context[if ?b then Ok x else Throw x] => destruct b end; cbn [st_of]; [|exact H].
+  destruct H as (Hb & Ha & H1 & H2). repeat split; auto.
+Qed.
+
+(* prepEchoing turns a transaction without an adapted head into a virgin-clone message, or throws *)
+Lemma prepEchoing_spec :
+  spec InvW prepEchoing (fun y => InvW y /\ ad_header (ad y) = Some SrcVirgin) InvW.
+Proof.
+  intros x H. unfold prepEchoing. cbv zeta.
+  assert (H' : InvW (disableBypass true (disableRepeats x))) by (eapply fr_InvW; [|exact H]; frsolve).
+  set (x' := disableBypass true (disableRepeats x)) in *. clearbody x'. clear H.
+  unfold must at 1. destruct (ad_header (ad x')) eqn:Eh; [exact H'|]. cbn [bind].
+  set (x2 := with_ad_isreply _ (with_ad_header (Some SrcVirgin) x')).
+  assert (H2 : InvW x2 /\ ad_header (ad x2) = Some SrcVirgin).
+  { split; [|reflexivity]. destruct H' as (Hb & Ha & H1 & H2). unfold body_ok in Hb. rewrite Eh in Hb. destruct Hb as (Hb1 & Hb2 & Hb3).
+    unfold InvW, body_ok, answer_ok, p1, p2. cbn. repeat split; auto.
+    - rewrite Hb1, Hb3, takeN_0. reflexivity.
+    - rewrite Hb3. lia.
+    - intros s E. apply Ha in E. congruence.
+    - intros E. apply H2 in E. congruence. }
+  destruct (vb_expected (cfg x2)).
+  - set (r := if active (s_st (vs x2)) then Ok x2 else _).
+    assert (Hr : InvW (st_of r) /\ ad_header (ad (st_of r)) = Some SrcVirgin).
+    { subst r. destruct (active (s_st (vs x2))); [exact H2|]. unfold must, bind.
+      match goal with |- context[if ?b then Ok x2 else Throw x2] => destruct b end; cbn [st_of]; [|exact H2].
+      destruct H2 as ((Hb & Ha & H1 & H2') & Hh). split; [|exact Hh]. exact (conj Hb (conj Ha (conj H1 H2'))). }
+    destruct r as [y|y]; cbn [bind st_of] in *; [|apply Hr].
+    destruct Hr as (Hy & Hyh).
+    assert (Hz : InvW (checkConsuming (with_sending SVirgin y)) /\ ad_header (ad (checkConsuming (with_sending SVirgin y))) = Some SrcVirgin).
+    { pose proof (checkConsuming_fr (with_sending SVirgin y)) as F. split.
+      - eapply fr_InvW; [exact F|]. destruct Hy as (Hb & Ha & H1 & H2'). repeat split; auto. unfold p1. cbn. intros _. exact Hyh.
+      - destruct F as (Fa & _). rewrite Fa. exact Hyh. }
+    destruct Hz as (Hz & Hzh).
+    pose proof (makeAdaptedBodyPipe_InvW _ Hz) as Hm.
+    assert (Hmh : ad_header (ad (st_of (makeAdaptedBodyPipe (checkConsuming (with_sending SVirgin y))))) = Some SrcVirgin).
+    { unfold makeAdaptedBodyPipe, must, bind. match goal with |- context[if ?b then Ok ?z else Throw ?z] => destruct b end; cbn; exact Hzh. }
+    destruct (makeAdaptedBodyPipe (checkConsuming (with_sending SVirgin y))) as [w|w]; cbn [bind st_of] in *; [|exact Hm].
+    destruct (vb_known (cfg w)); [|split; assumption].
+    split; [|exact Hmh]. destruct Hm as (Hb & Ha & H1 & H2'). exact (conj Hb (conj Ha (conj H1 H2'))).
+  - destruct H2 as (H2 & H2h).
+    pose proof (stopSending_InvW true x2 H2) as Hs. pose proof (stopSending_facts true x2) as (Fh & _).
+    destruct (stopSending true x2); cbn [st_of] in *; [split; [exact Hs|congruence]|exact Hs].
+Qed.
+
+(* ------------------------------------------------------------------ parsing path *)
+Lemma fr_InvW_res x r : InvW x -> fr x (st_of r) -> match r with Ok y => InvW y | Throw y => InvW y end.
+Proof. intros H F. destruct r; cbn [st_of] in F; eapply fr_InvW; eauto. Qed.
+
+Definition NoVirgin (x : xs) : Prop := ad_header (ad x) <> Some SrcVirgin.
+Definition InvN (x : xs) : Prop := InvW x /\ NoVirgin x.
+Lemma fr_InvN x y : fr x y -> InvN x -> InvN y.
+Proof. intros F (H & N). split; [eapply fr_InvW; eauto|]. unfold NoVirgin. destruct F as (Fa & _). rewrite Fa. exact N. Qed.
+Lemma InvN_Inv x : InvN x -> p4 x -> Inv x.
+Proof. intros (H & N) H4. split; [exact H|split; [exact H4|]]. intros E. contradiction. Qed.
+
+(* decideOnParsingBody, entered with an adapted head *)
+Lemma decideOnParsingBody_spec :
+  spec (fun x => InvW x /\ ad_header (ad x) = Some SrcAdapted) decideOnParsingBody
+       (fun y => InvN y /\ parsing (st y) <> PsHttpHeader) InvW.
+Proof.
+  intros x (H & Hh). unfold decideOnParsingBody. destruct (icap_b (io x)).
+  - assert (H' : InvW (with_parsing PsBody x)).
+    { destruct H as (Hb & Ha & H1 & H2). refine (conj Hb (conj Ha (conj H1 _))). intros _. exact Hh. }
+    pose proof (makeAdaptedBodyPipe_InvW _ H') as Hm.
+    assert (Hf : ad_header (ad (st_of (makeAdaptedBodyPipe (with_parsing PsBody x)))) = Some SrcAdapted /\
+                 parsing (st (st_of (makeAdaptedBodyPipe (with_parsing PsBody x)))) = PsBody).
+    { unfold makeAdaptedBodyPipe, must, bind. match goal with |- context[if ?b then Ok ?z else Throw ?z] => destruct b end; cbn; auto. }
+    destruct (makeAdaptedBodyPipe (with_parsing PsBody x)) as [y|y]; cbn [bind st_of] in *; [|exact Hm].
+    unfold must. destruct (is_sending SAdapted y); [|exact Hm].
+    destruct Hf as (Hf1 & Hf2). split; [split; [exact Hm|unfold NoVirgin; congruence]|congruence].
+  - set (r := if icap_tr (io x) then _ else _).
+    assert (Hr : InvW (st_of r) /\ ad_header (ad (st_of r)) = Some SrcAdapted /\
+                 match r with Ok z => parsing (st z) <> PsHttpHeader | Throw _ => True end).
+    { subst r. destruct (icap_tr (io x)); cbn [st_of].
+      - split; [|split; [exact Hh|cbn; discriminate]].
+        destruct H as (Hb & Ha & H1 & H2). refine (conj Hb (conj Ha (conj H1 _))). unfold p2; cbn; discriminate.
+      - pose proof (stopParsing_InvW true x H) as Hs. pose proof (stopParsing_facts true x) as (Fa & _ & _ & _ & Fp).
+        split; [exact Hs|split; [rewrite Fa; exact Hh|]]. destruct (stopParsing true x); [rewrite Fp; discriminate|exact I]. }
+    destruct r as [y|y]; cbn [bind st_of] in *; [|apply Hr].
+    destruct Hr as (Hy & Hyh & Hyp).
+    pose proof (stopSending_InvW true y Hy) as Hs. pose proof (stopSending_facts true y) as (Fh & Fp & _).
+    destruct (stopSending true y) as [z|z]; cbn [st_of] in *; [|exact Hs].
+    split; [split; [exact Hs|unfold NoVirgin; congruence]|congruence].
+Qed.
+
+Lemma need_more_same x : match need_more x with Ok y => y = x | Throw y => y = x end.
+Proof. unfold need_more. destruct (comm_eof (io x)); reflexivity. Qed.
+
+(* maybeAllocateHttpMsg *)
+Lemma alloc_spec b x :
+  Inv x -> parsing (st x) = PsHttpHeader ->
+  let x' := match ad_header (ad x) with Some _ => x | None => with_ad_isreply b (with_ad_header (Some SrcAdapted) x) end in
+  InvW x' /\ ad_header (ad x') = Some SrcAdapted /\ parsing (st x') = PsHttpHeader /\ icap_h (io x') = icap_h (io x).
+Proof.
+  intros (H & H4 & H5) Hp. cbv zeta.
+  assert (Hnv : ad_header (ad x) <> Some SrcVirgin) by (intros E; apply H5 in E; congruence).
+  destruct (ad_header (ad x)) as [[|]|] eqn:E; [congruence|auto|].
+  split; [|cbn; auto].
+  destruct H as (Hb & Ha & H1 & H2). unfold body_ok in Hb. rewrite E in Hb. destruct Hb as (Hb1 & Hb2 & Hb3).
+  unfold InvW, body_ok, answer_ok, p1, p2. cbn. repeat split; auto; try congruence.
+  - intros s Es. apply Ha in Es. congruence.
+  - intros Es. apply H1 in Es. congruence.
+Qed.
+
+Lemma httpTail_spec x' :
+  InvW x' -> ad_header (ad x') = Some SrcAdapted -> parsing (st x') = PsHttpHeader -> icap_h (io x') <> HNone ->
+  match (match front (readbuf (io x')) with
+         | FEmpty | FPartial => need_more x'
+         | FTok THttpHead rest => decideOnParsingBody (with_readbuf rest x')
+         | FTok _ _ => Throw x'
+         end) with Ok y => InvN y /\ p4 y | Throw y => InvW y end.
+Proof.
+  intros Hw Hh Hpp Hih.
+  assert (Hnm : match need_more x' with Ok y => InvN y /\ p4 y | Throw y => InvW y end).
+  { pose proof (need_more_same x') as E. destruct (need_more x'); subst; [|exact Hw].
+    split; [split; [exact Hw|unfold NoVirgin; congruence]|]. unfold p4. intros _. exact Hih. }
+  destruct (front (readbuf (io x'))) as [| |t rest]; [exact Hnm|exact Hnm|].
+  destruct t; try exact Hw.
+  assert (Hz : InvW (with_readbuf rest x') /\ ad_header (ad (with_readbuf rest x')) = Some SrcAdapted).
+  { split; [|exact Hh]. destruct Hw as (Hb & Ha & H1 & H2). exact (conj Hb (conj Ha (conj H1 H2))). }
+  pose proof (decideOnParsingBody_spec _ Hz) as D. destruct (decideOnParsingBody (with_readbuf rest x')); [|exact D].
+  destruct D as (D1 & D2). split; [exact D1|]. intros E; contradiction.
+Qed.
+
+(* parseHttpHead: entered between calls with parsing = psHttpHeader *)
+Lemma parseHttpHead_spec :
+  spec (fun x => Inv x /\ parsing (st x) = PsHttpHeader) parseHttpHead (fun y => InvN y /\ p4 y) InvW.
+Proof.
+  intros x (HI & Hp). unfold parseHttpHead.
+  assert (Hn : icap_h (io x) <> HNone) by (destruct HI as (_ & H4 & _); apply H4, Hp).
+  destruct (icap_h (io x)) eqn:Eih; [congruence| |]; cbv zeta.
+  - pose proof (alloc_spec false x HI Hp) as A. cbv zeta in A. destruct A as (A1 & A2 & A3 & A4).
+    apply httpTail_spec; auto. congruence.
+  - pose proof (alloc_spec true x HI Hp) as A. cbv zeta in A. destruct A as (A1 & A2 & A3 & A4).
+    apply httpTail_spec; auto. congruence.
+Qed.
+
+Lemma prepEchoing_parsing x :
+  parsing (st (st_of (prepEchoing x))) = parsing (st x) /\ icap_h (io (st_of (prepEchoing x))) = icap_h (io x).
+Proof.
+  unfold prepEchoing, makeAdaptedBodyPipe, stopSending, checkConsuming, must, bind, disableBypass, disableRepeats.
+  cbv zeta. brk; cbn; auto.
+Qed.
+
+Lemma handle204_spec :
+  spec InvW handle204NoContent Inv InvW.
+Proof.
+  intros x H. unfold handle204NoContent.
+  pose proof (stopParsing_InvW true x H) as Hs. pose proof (stopParsing_facts true x) as (_ & _ & _ & _ & Fp).
+  destruct (stopParsing true x) as [y|y]; cbn [bind st_of] in *; [|exact Hs].
+  pose proof (prepEchoing_spec y Hs) as P. pose proof (prepEchoing_parsing y) as (Pp & _).
+  destruct (prepEchoing y) as [z|z]; cbn [st_of] in *; [|exact P].
+  destruct P as (P1 & P2). split; [exact P1|split].
+  - intros E. congruence.
+  - intros _. congruence.
+Qed.
+
+Lemma InvN_set_parsing_hdr x : InvN x -> InvN (with_parsing PsIcapHeader x).
+Proof.
+  intros ((Hb & Ha & H1 & H2) & N). split; [|exact N]. refine (conj Hb (conj Ha (conj H1 _))). unfold p2; cbn; discriminate.
+Qed.
+
+Lemma handle100_spec :
+  spec InvN handle100Continue (fun y => InvN y /\ parsing (st y) = PsIcapHeader) InvW.
+Proof.
+  intros x H. unfold handle100Continue.
+  unfold must at 1. destruct (is_writing WPaused x); [|apply H]. cbn [bind].
+  unfold must at 1. destruct (pv_enabled x && pv_done x && negb (pv_ieof x)); [|apply H]. cbn [bind].
+  set (r := if negb (allow204post (fl x)) then stopBackup x else Ok x).
+  assert (Hr : InvN (st_of r)).
+  { subst r. destruct (negb (allow204post (fl x))); [|exact H]. eapply fr_InvN; [apply stopBackup_fr|exact H]. }
+  destruct r as [y|y]; cbn [bind st_of] in *; [|apply Hr].
+  pose proof (InvN_set_parsing_hdr y Hr) as Hy.
+  assert (Hy' : InvN (with_writing WPrime (with_parsing PsIcapHeader y))) by (eapply fr_InvN; [|exact Hy]; frsolve).
+  pose proof (writeMore_fr (with_writing WPrime (with_parsing PsIcapHeader y))) as F.
+  destruct (writeMore (with_writing WPrime (with_parsing PsIcapHeader y))) as [z|z]; cbn [st_of] in F.
+  - split; [eapply fr_InvN; eauto|]. destruct F as (_ & _ & _ & _ & Fp & _). rewrite Fp. reflexivity.
+  - apply (fr_InvN _ _ F Hy').
+Qed.
+
+Lemma handle200_spec :
+  spec (fun x => InvN x /\ icap_h (io x) <> HNone) handle200Ok (fun y => InvN y /\ p4 y) InvW.
+Proof.
+  intros x (H & Hh). unfold handle200Ok.
+  set (x' := with_sending SAdapted (with_parsing PsHttpHeader x)).
+  assert (Hx' : InvN x' /\ icap_h (io x') <> HNone).
+  { split; [|exact Hh]. destruct H as ((Hb & Ha & H1 & H2) & N). split; [|exact N].
+    refine (conj Hb (conj Ha (conj _ _))); [unfold p1|unfold p2]; cbn; discriminate. }
+  clearbody x'. destruct Hx' as (Hx' & Hh').
+  pose proof (stopBackup_fr x') as F.
+  destruct (stopBackup x') as [y|y]; cbn [bind st_of] in *; [|apply (fr_InvN _ _ F Hx')].
+  pose proof (checkConsuming_fr y) as F2. pose proof (fr_trans _ _ _ F F2) as F3.
+  split; [eapply fr_InvN; eauto|]. intros _. destruct F3 as (_ & _ & _ & _ & _ & _ & _ & _ & _ & Fh & _). congruence.
+Qed.
+
+Lemma handleUnknown_spec : spec InvW handleUnknownScode (fun _ => False) InvW.
+Proof.
+  intros x H. unfold handleUnknownScode.
+  pose proof (stopParsing_InvW false x H) as Hs.
+  destruct (stopParsing false x) as [y|y]; cbn [bind st_of] in *; [|exact Hs].
+  pose proof (stopBackup_fr y) as F. destruct (stopBackup y) as [z|z]; cbn [bind st_of] in *; eapply fr_InvW; eauto.
+Qed.
+
+Lemma validate200_hdr x : validate200Ok x = true -> icap_h (io x) <> HNone.
+Proof. unfold validate200Ok. destruct (c_reqmod (cfg x)), (icap_h (io x)); congruence. Qed.
+
+(* parseIcapHead: entered between calls with parsing = psIcapHeader *)
+Lemma parseIcapHead_spec :
+  spec (fun x => Inv x /\ parsing (st x) = PsIcapHeader) parseIcapHead Inv InvW.
+Proof.
+  intros x (HI & Hp). unfold parseIcapHead.
+  assert (HN : InvN x).
+  { destruct HI as (H & _ & H5). split; [exact H|]. intros E. apply H5 in E. congruence. }
+  unfold must at 1. destruct (is_sending SUndecided x); [|apply HN]. cbn [bind].
+  assert (Hnm : match need_more x with Ok y => Inv y | Throw y => InvW y end).
+  { pose proof (need_more_same x) as E. destruct (need_more x); subst; [exact HI|apply HN]. }
+  destruct (front (readbuf (io x))) as [| |t rest]; [exact Hnm|exact Hnm|].
+  destruct t as [stc h b tr| | | | | |]; try apply HN.
+  set (x' := with_icap_tr tr (with_icap_b b (with_icap_h h (with_readbuf rest x)))).
+  assert (Hx' : InvN x' /\ parsing (st x') = PsIcapHeader /\ icap_h (io x') = h).
+  { split; [|split; [exact Hp|reflexivity]]. destruct HN as ((Hb & Ha & H1 & H2) & N). split; [|exact N]. exact (conj Hb (conj Ha (conj H1 H2))). }
+  clearbody x'. destruct Hx' as (Hx' & Hp' & Hh').
+  cbv zeta.
+  set (r := if icap_dispatch stc =? 1 then _ else _).
+  assert (Hr : match r with Ok y => Inv y | Throw y => InvW y end).
+  { subst r. destruct (icap_dispatch stc =? 1).
+    { pose proof (handle100_spec x' Hx') as S. destruct (handle100Continue x'); [|exact S].
+      destruct S as (S1 & S2). apply InvN_Inv; [exact S1|]. intros E. congruence. }
+    destruct (icap_dispatch stc =? 2).
+    { unfold must. destruct (validate200Ok x') eqn:Ev; [|apply Hx']. cbn [bind].
+      pose proof (handle200_spec x' (conj Hx' (validate200_hdr _ Ev))) as S. destruct (handle200Ok x'); [|exact S].
+      destruct S as (S1 & S2). apply InvN_Inv; assumption. }
+    destruct (icap_dispatch stc =? 3); [apply handle204_spec, Hx'|].
+    destruct (icap_dispatch stc =? 4); [apply Hx'|].
+    pose proof (handleUnknown_spec x' (proj1 Hx')) as S. destruct (handleUnknownScode x'); [contradiction|exact S]. }
+  destruct r as [y|y]; cbn [bind]; [|exact Hr].
+  destruct (is_writing WPaused y); [|exact Hr].
+  pose proof (stopWriting_fr true y) as F. destruct (stopWriting true y); cbn [st_of] in F;
+    [eapply fr_Inv; eauto|eapply fr_InvW; [exact F|apply Hr]].
+Qed.
